@@ -710,7 +710,7 @@ class Expression(Element, ABC):
         >>> assert P(A, B, C).conditional([A, B]) == P(A, B, C) / Sum[C](P(A, B, C))
         """
         ranges = _upgrade_ordering([r.get_base() for r in _upgrade_variables(ranges)])
-        ranges_complement = {c.get_base() for c in self._iter_variables()} - set(ranges)
+        ranges_complement = {c.get_base() for c in _get_free_variables(self)} - set(ranges)
         return self.normalize_marginalize(ranges_complement)
 
     def normalize_marginalize(self, ranges: VariableHint) -> Expression:
@@ -1658,6 +1658,18 @@ def ensure_ordering(
         return _upgrade_ordering(ordering)
     # use alphabetical ordering
     return _sorted_variables(expression.get_variables())
+
+
+def _get_free_variables(expression: Expression) -> set[Variable]:
+    """Get the variables of an expression that are not bound by a summation inside it."""
+    if isinstance(expression, Sum):
+        return _get_free_variables(expression.expression) - set(expression.ranges)
+    elif isinstance(expression, Product):
+        return set().union(*(_get_free_variables(e) for e in expression.expressions))
+    elif isinstance(expression, Fraction):
+        return _get_free_variables(expression.numerator) | _get_free_variables(expression.denominator)
+    else:
+        return expression.get_variables()
 
 
 def _get_treatment_variables(variables: set[Variable]) -> set[Variable]:
